@@ -5,7 +5,9 @@ from C18_sector import hook, D, rand_angle, rand_sweep
 RULE = ('sector: points() and contains() (probed on the bounding box plus a margin of 0..3) of the implementation against the '
         'model for whole-degree and random angle pairs (normals via the hook), d 0..60, positions +-70 and +-2^20; search: '
         'points() == filter contains over box+margin, strictly row-major, inside bounding_box(), d 0..40, all sweeps incl. 0 and >= 360')
-ASSUMPTIONS = ['sector bounding box within +-2^29 (rect_ok) for the membership / order corollaries; C05_sector_points_spec itself is unconditional']
+ASSUMPTIONS = ['sector bounding box within +-2^29 (rect_ok) for the membership / order corollaries; C05_sector_points_spec itself is unconditional in the Z model',
+               'the code is the Z model only for diameters < 2^15 and contains() probes within 32767 doubled units of the centre (probe_ok): '
+               'beyond, the i32 length_squared wraps (release) or panics (overflow checks) - C05_sector_contains_in_bbox_machine / C05_sector_far_probe_wraps']
 TRUSTED = ['the plane sector (normals, operation) is a parameter of the model: C05 for sectors holds whatever the trigonometry returns']
 
 
@@ -22,6 +24,9 @@ def cases(tier, rng):
     for s, w in g:
         for d in (0, 1, 2, 3, 4, 5, 6, 11, 20):
             spec.append((1, -2, d, D(s), D(w), 2))
+    for d in (100, 128, 240, 320):
+        for (a, w) in ((D(0), D(90)), (D(200), D(-250)), (D(33), D(360))):
+            spec.append((-7, 4, d, a, w, 99))
     hs = hook([(t[3], t[4]) for t in spec])
     for (x, y, d, a, s, m), nn in zip(spec, hs):
         ps = J(*nn[:5])
@@ -38,6 +43,8 @@ def search(tier, rng):
             for d in (0, 1, 2, 3, 4, 5, 9, 16):
                 out.append(J('p_sec_c05', -2, 3, d, D(s), D(w), 3))
     n = 2000 if tier == 'quick' else 40000
+    for _ in range(200 if tier == 'quick' else 4000):
+        out.append(J('p_sec_far', coord(rng), coord(rng), rng.randrange(0, 200), rand_angle(rng), rand_sweep(rng)))
     for _ in range(n):
         big = rng.random() < 0.1
         out.append(J('p_sec_c05', coord(rng, big), coord(rng, big), rng.randrange(0, 41), rand_angle(rng), rand_sweep(rng), rng.randrange(0, 5)))
